@@ -996,7 +996,7 @@ class state( dict ):
                             	= states[add]
                         #log.debug( "%s <- %-10.10r --> %s (extra state)", states[lst].name_centered(),
                         #           enc, states[add] )
-                        if True in states[pre]:
+                        if states[pre].get( True ) is not None:
                             states[add][True] \
                                 = states[pre][True]
                             #log.debug( "%s <- %-10.10r --> %s (dup wild)", states[add].name_centered(),
